@@ -20,7 +20,9 @@ Inductive c16_case :=
 | KInt192Raw (bytes : list Z) (dec : res Z)
 (* retirement report: (protocol version, validity starts or nil) -> Encode bytes -> Decode *)
 | KRetire (pver : Z) (va : option (gmap Z Z)) (enc : option (list Z)) (dec : option (Z * option (gmap Z Z)))
-(* codecs without a model (JSON based): the round-trip verdict computed on the implementation *)
+(* Mercury offchain config: (expiration window, base fee) -> Encode bytes -> DecodeOffchainConfig *)
+| KMercOff (window : Z) (fee : dec) (enc : option (list Z)) (dec_ : option (Z * dec))
+(* reserved: codecs without a model (none left) *)
 | KGoOnly (name : Z) (roundtrip_ok : bool).
 
 Definition raw_obs_eqb (a b : raw_observation) : bool :=
@@ -58,6 +60,15 @@ Definition c16_agrees (c : c16_case) : bool :=
       | Some bs => bytes_eq (rr_encode pver va) bs && bool_decide (rr_decode bs = dec)
       | None => false
       end
+  | KMercOff w fee enc d =>
+      match enc with
+      | Some bs => bytes_eq (merc_off_encode w fee) bs &&
+                   match merc_off_decode bs, d with
+                   | Some (w1, f1), Some (w2, f2) => (w1 =? w2) && dec_eqb f1 f2
+                   | None, None => true
+                   | _, _ => false end
+      | None => false
+      end
   | KGoOnly _ _ => true
   end.
 
@@ -90,6 +101,7 @@ Definition c16_spec_ok (c : c16_case) : bool :=
                          else is_err enc
   | KInt192Raw bs dec => if (length bs =? 24)%nat then is_ok dec else is_err dec
   | KRetire pver va enc dec => match enc with Some _ => bool_decide (dec = Some (pver, va)) | None => false end
+  | KMercOff w fee enc d => match enc, d with Some _, Some (w', fee') => (w =? w') && deqvb fee fee' | _, _ => false end
   | KGoOnly _ ok => ok
   end.
 
@@ -97,7 +109,7 @@ Definition c16_branch (c : c16_case) : nat :=
   match c with
   | KObs (Some _) _ _ _ _ => 0 | KObs None _ (Ok _) _ _ => 1 | KObs None _ _ _ _ => 2 | KSval _ _ _ => 3 | KSvalRaw _ _ _ => 4
   | KOffchain _ _ _ => 5 | KOffchainRaw _ _ => 6 | KLloOnchain _ _ _ => 7 | KMercOnchain _ _ _ => 8
-  | KInt192 _ _ _ => 9 | KInt192Raw _ _ => 10 | KGoOnly _ _ => 11 | KRetire _ _ _ _ => 11 end%nat.
+  | KInt192 _ _ _ => 9 | KInt192Raw _ _ => 10 | KGoOnly _ _ => 11 | KRetire _ _ _ _ => 11 | KMercOff _ _ _ _ => 11 end%nat.
 Definition histogram12 (l : list nat) : list nat := map (fun b => length (List.filter (Nat.eqb b) l)) (seq 0 12).
 Definition c16_eval (cs : list c16_case) : list nat * list nat * list nat :=
   (index_where (fun c => negb (c16_agrees c)) cs, index_where (fun c => negb (c16_spec_ok c)) cs, histogram12 (map c16_branch cs)).
